@@ -203,7 +203,7 @@ def obligations(tier='quick', seed=0):
                         got = observe_full(name, G, mk({u: u for u in nodes}), extra=dict(nodelist=nodes[::-1]), numeric=numeric)
                         for k in ref:
                             a, b = ref[k], got.get(k)
-                            same = (a == b) if (isinstance(a, str) or isinstance(b, str)) else Hn.zero(a - b)
+                            same = False if (a is None or b is None) else ((a == b) if (isinstance(a, str) or isinstance(b, str)) else Hn.zero(a - b))
                             if not same:
                                 bad.append(dict(graph=gname, relabelling='explicit nodelist in reversed order', mode=mode,
                                                 nodes=[str(x) for x in G.nodes()], edges=[[str(a_), str(b_)] for a_, b_ in G.edges()],
@@ -224,7 +224,7 @@ def obligations(tier='quick', seed=0):
                         continue
                     for k in ref:
                         a, b = ref[k], got.get(k)
-                        same = (a == b) if (isinstance(a, str) or isinstance(b, str)) else Hn.zero(a - b)
+                        same = False if (a is None or b is None) else ((a == b) if (isinstance(a, str) or isinstance(b, str)) else Hn.zero(a - b))
                         if not same:
                             bad.append(dict(graph=gname, relabelling=rname, mode=mode, nodes=[str(x) for x in H.nodes()],
                                             edges=[[str(a_), str(b_)] for a_, b_ in H.edges()],
